@@ -2,6 +2,7 @@ package memconn
 
 import (
 	"fmt"
+	"io"
 	"sort"
 	"testing"
 )
@@ -14,6 +15,8 @@ import (
 //	eof     : the writer wrote everything and closed; every byte reaches the reader's end of the connection
 //	reset   : the connection breaks ("connection reset by peer") once Pos of the W bytes in flight were delivered
 //	timeout : the same with an expired read deadline as the error (a net.Error with Timeout() and Temporary())
+//	conn-eof: the same with io.EOF as the error: the connection UNDER a multiplexer ends while stream data is in
+//	          flight (for the streams on it that is a loss of the connection, not the end of a stream)
 type ReadFault struct {
 	Kind     string `json:"kind"`
 	WithData bool   `json:"error_in_the_same_read_call_as_the_last_segment"`
@@ -32,9 +35,13 @@ func (f ReadFault) String() string {
 	return fmt.Sprintf("%s after %d of %d wire bytes, %s", f.Kind, f.Pos, f.W, how)
 }
 
-func (f ReadFault) err() error {
-	if f.Kind == "timeout" {
+// Err is the error the fault injects.
+func (f ReadFault) Err() error {
+	switch f.Kind {
+	case "timeout":
 		return ErrTimeout
+	case "conn-eof":
+		return io.EOF
 	}
 	return ErrReset
 }
@@ -83,7 +90,8 @@ type FaultResult struct {
 	Infra   string
 	Problem *Problem
 	Obs     TamperObs
-	W       int // wire bytes in flight to the reader when the writer was done
+	W       int    // wire bytes in flight to the reader when the writer was done
+	Wire    []byte // probe runs: those bytes
 	Link    *Link
 }
 
@@ -107,6 +115,7 @@ func RunReadFault(t *testing.T, setup func() (*Link, error), payload []byte, wri
 		}
 		res.W = l.RRaw.Buffered()
 		if probe {
+			res.Wire = l.RRaw.PeekBuffered()
 			return
 		}
 		if f.Kind == "eof" {
@@ -122,7 +131,7 @@ func RunReadFault(t *testing.T, setup func() (*Link, error), payload []byte, wri
 				res.Infra = fmt.Sprintf("fault position %d outside the %d bytes in flight", f.Pos, res.W)
 				return
 			}
-			l.RRaw.FailReadAfter(int64(f.Pos), f.err(), f.WithData)
+			l.RRaw.FailReadAfter(int64(f.Pos), f.Err(), f.WithData)
 		}
 		res.Obs, res.Problem = tr.ReadTampered(6)
 		*buf = tr.Buf
